@@ -11,35 +11,6 @@ untrusted way of producing the certificate.
 -/
 namespace Bclv
 
-/-- One decoded instruction: opcode, operands, offset of the next instruction. -/
-structure Instr where
-  op : Op
-  a : Nat := 0        -- first operand (index, slot, count, jump distance)
-  b : Nat := 0        -- second operand (DEFBLOCK name index, BIND option byte)
-  next : Nat
-  deriving Repr
-
-/-- Decode the instruction at `pc` exactly as `vmStep` reads it. -/
-def decodeAt (p : Prog) (pc : Nat) : Option Instr := do
-  let byte ← p.code[pc]?
-  let o ← Op.ofByte byte
-  match o with
-  | .CONST | .GETLOCAL | .SETLOCAL | .GETFIELD | .SETFIELD | .POPN =>
-    let (x, nx) ← readUv p (pc + 1)
-    pure { op := o, a := x, next := nx }
-  | .DEFBLOCK =>
-    let (x, n1) ← readUv p (pc + 1)
-    let (y, n2) ← readUv p n1
-    pure { op := o, a := x, b := y, next := n2 }
-  | .JUMP | .JFALSE | .LOOP =>
-    let (j, nx) ← readU16 p (pc + 1)
-    pure { op := o, a := j, next := nx }
-  | .BIND =>
-    let (x, n1) ← readUv p (pc + 1)
-    let opt ← p.code[n1]?
-    pure { op := o, a := x, b := opt.toNat, next := n1 + 1 }
-  | _ => pure { op := o, next := pc + 1 }
-
 /-- Depths assigned to a boundary. -/
 structure St where
   d : Nat     -- operand stack depth
